@@ -31,3 +31,4 @@
 (declare-fun creal (Int) Int)   ; real(c) of a complex value (the engine's builtin)
 (declare-fun cimag (Int) Int)   ; imag(c)
 (declare-fun constCompare (Int Int Int) Bool)      ; go/constant.Compare(x, op, y)
+(declare-fun assertok_github_com_traefik_yaegi_interp_valueInterface (Int) Bool)  ; x.(valueInterface) succeeds: x is a wrapper the interpreter put around a script value
